@@ -25,6 +25,8 @@ LAYOUTS = [
     ([0, 0, 0, 1, 1, 1, 1], [3, 2, 0, 2, 3, 1, 0]),
     # a missing value first and every element once (mode ties: the missing value wins when it is not dropped)
     ([0, 0, 0, 1, 1, 1], [NAV, 2, 1, 3, NAV, 0]),
+    # a missing value between two equal values (a sort that does not order missing values splits the run)
+    ([0, 0, 0, 1, 1, 1, 1], [2, NAV, 2, 1, NAV, 1, 3]),
 ]
 FN = {"all": np.all, "any": np.any, "count": len, "max": np.amax, "mean": np.mean, "median": np.median,
       "min": np.amin, "std": np.std, "sum": np.sum, "var": np.var}
